@@ -2,7 +2,7 @@
 //! variants / `From` impls / public fields of the library (never by parsing
 //! text), then observed: `clone`, `into_owned`, `Display`, re-parse.
 //!
-//! `ok (api B(x==x.clone()) B(x==owned) DUMP(x) DUMP(owned) TEXT(x) TEXT(owned) RE)`
+//! `ok (api B(x==x.clone()) B(x==owned) DUMP(x) DUMP(owned) TEXT(x) TEXT(owned) RE (reeq B(x==reparsed)|na))`
 //! | `panic` | `badinput` | `badop` (| `err` for `kfv` only).
 //!
 //! `owned = x.clone().into_owned()`, or a second clone for the types without
@@ -103,12 +103,16 @@ macro_rules! api_case {
                 observe::text(&mut out, &printed_owned);
                 out.push(' ');
                 let $s: &str = &printed;
+                // `(reeq B)`: the type's own `==` between `x` and the re-parsed
+                // value; `na` when there is no re-parsed value.
                 match guard(|| $parse) {
-                    None => out.push_str("(re panic)"),
-                    Some(Err(_)) => out.push_str("(re err)"),
+                    None => out.push_str("(re panic) (reeq na)"),
+                    Some(Err(_)) => out.push_str("(re err) (reeq na)"),
                     Some(Ok(w)) => {
                         out.push_str("(re ok ");
                         $dump(&w, &mut out);
+                        out.push_str(") (reeq ");
+                        observe::b(&mut out, x == w);
                         out.push(')');
                     }
                 }
